@@ -101,6 +101,34 @@ def maskFuncStr {μ} [Inhabited μ] [MaskVal μ] (enc : Tensor μ → List (List
 def padStr {μ} [Inhabited μ] [MaskVal μ] (d : Tensor FVal) (p : Tensor μ) : String :=
   resStr (applyPadding (some p) d)
 
+def pairUp : List (List Int) → Option (List (List Int × List Int))
+  | [] => some []
+  | [_] => none
+  | a :: b :: rest => (pairUp rest).map ((a, b) :: ·)
+
+def modResStr (rs : List ModRes) : String :=
+  match rs.find? (fun r => match r with | .ok _ => false | _ => true) with
+  | some .valueError => "err ValueError"
+  | some .assertionError => "err AssertionError"
+  | some .runtimeError => "err RuntimeError"
+  | _ =>
+    let outs := rs.filterMap fun r => match r with | .ok o => some o | _ => none
+    if outs.any (fun o => o.data.any (fun v => !v.wf)) then "err NaN"
+    else "ok " ++ fmtGroups (outs.flatMap fun o => [o.shape.map Int.ofNat, encodeVals o.data])
+
+/-- a history of `ApplyMaskModule` applications on one sample dict -/
+def modHist (kind : Int) (k : Tensor FVal) (t : Option (Tensor FVal)) (masks : List (List Int × List Int)) :
+    String :=
+  if kind = 0 then
+    match masks.mapM (fun (ms, md) => if ms.all (· ≥ 0) then mkT ms md else none) with
+    | some ms => modResStr (moduleHistory k t ms)
+    | none => "err BadOp"
+  else if kind = 1 then
+    match masks.mapM (fun (ms, md) => mkV ms md) with
+    | some ms => modResStr (moduleHistory k t ms)
+    | none => "err BadOp"
+  else "err BadOp"
+
 def step (op : String) (gs : List (List Int)) : String :=
   match op, gs with
   | "mask", [[kind], ms, md, ks, kd] =>
@@ -132,6 +160,22 @@ def step (op : String) (gs : List (List Int)) : String :=
   | "astar", [[kind], ms, md, ys, yd] =>
     match mkV ys yd with
     | some y => withMask kind ms md (aStarStr y) (aStarStr y)
+    | none => "err BadOp"
+  | "modhist", [kind] :: ks :: kd :: [hasT] :: ts :: td :: rest =>
+    match mkV ks kd, pairUp rest with
+    | some k, some masks =>
+      if hasT = 0 then modHist kind k none masks
+      else match mkV ts td with
+        | some t => modHist kind k (some t) masks
+        | none => "err BadOp"
+    | _, _ => "err BadOp"
+  | "modmissing", [[which], ks, kd] =>
+    match mkV ks kd with
+    | some k =>
+      let m : Tensor Int := { shape := [], data := [1] }
+      let s : Sample Int := if which = 0 then { input := none, mask := some m, target := none }
+                            else { input := some k, mask := none, target := none }
+      modResStr [applyMaskModule s]
     | none => "err BadOp"
   | "loglik", [[kind], ms, md, ps, pd, ys, yd, [s]] =>
     match mkV ps pd, mkV ys yd with
